@@ -181,6 +181,65 @@ func QueryToClover(q *model.Query) *query.Query {
 }
 
 // DocToClover builds a clover document from a model document.
+// Narrow rewrites the numbers of a value into narrower Go types that hold them
+// exactly (int, int8, int16, int32, uint, uint8, uint16, uint32, float32): what an
+// application passes before clover normalises it. The choice is a function of the
+// value alone. Maps stay map[string]interface{}, slices []interface{}.
+func Narrow(v interface{}) interface{} {
+	switch x := v.(type) {
+	case int64:
+		switch {
+		case x >= -128 && x <= 127:
+			switch ((x % 4) + 4) % 4 {
+			case 0:
+				return int(x)
+			case 1:
+				return int8(x)
+			case 2:
+				return int16(x)
+			default:
+				return int32(x)
+			}
+		case x >= -(1<<31) && x < 1<<31:
+			return int32(x)
+		}
+		return int(x)
+	case uint64:
+		switch {
+		case x <= 255:
+			switch x % 3 {
+			case 0:
+				return uint8(x)
+			case 1:
+				return uint16(x)
+			default:
+				return uint(x)
+			}
+		case x < 1<<32:
+			return uint32(x)
+		}
+		return uint(x)
+	case float64:
+		if float64(float32(x)) == x {
+			return float32(x)
+		}
+		return x
+	case map[string]interface{}:
+		out := make(map[string]interface{}, len(x))
+		for k, e := range x {
+			out[k] = Narrow(e)
+		}
+		return out
+	case []interface{}:
+		out := make([]interface{}, len(x))
+		for i, e := range x {
+			out[i] = Narrow(e)
+		}
+		return out
+	}
+	return v
+}
+
 func DocToClover(d model.Doc) *document.Document {
 	doc := document.NewDocumentOf(val.CloneMap(d))
 	if doc == nil {
